@@ -282,6 +282,9 @@ def r07_2(ctx):
             #      a method that wrote it earlier on every path (covered by (iii) through direct stores)
             if why is None:
                 why = _after_direct_store(fi, rd, rtext)
+            # (v) lemma L-loc: `x._loc(x._start, m)` with x._start < m < x._end leaves x split
+            if why is None:
+                why = _after_interior_loc(model, fi, rd, rtext, mw)
             if why:
                 rep.ok("R07.2", astq.loc(fi, rd), construct, why)
             else:
@@ -358,6 +361,84 @@ def _after_direct_store(fi, rd, rtext):
                     for el in ([t] if not isinstance(t, ast.Tuple) else t.elts):
                         if isinstance(el, ast.Attribute) and el.attr == rd.attr and _receiver_text(el.value) == rtext:
                             return f"follows the store `{ast.unparse(el)} = ...` in the same function"
+    return None
+
+
+def _loc_lemma_holds(model, mw):
+    """Lemma L-loc, re-established from `_Interval._loc_inner` on every run: its body is (1) a pass-to-parent arm
+    guarded by `ta < self._start or tb > self._end`, (2) an exact-match arm guarded by `ta == self._start and
+    tb == self._end`, (3) a leaf arm `if self._midway is None:` every exit of which has split `self`; all later
+    statements run only on nodes that are already split.  Hence a query (self._start, m) with
+    self._start < m < self._end (arms 1 and 2 excluded) returns with `self` split."""
+    fi = model.func(BI, "_Interval._loc_inner")
+    ifs = [s for s in fi.node.body if isinstance(s, ast.If)]
+    if len(ifs) < 3:
+        return False
+    t1, t2, t3 = (ast.unparse(x.test) for x in ifs[:3])
+    sn = fi.params[0]
+    ok1 = t1 in (f"ta < {sn}._start or tb > {sn}._end", f"tb > {sn}._end or ta < {sn}._start")
+    ok2 = t2 in (f"ta == {sn}._start and tb == {sn}._end", f"tb == {sn}._end and ta == {sn}._start")
+    ok3 = t3 == f"{sn}._midway is None"
+    if not (ok1 and ok2 and ok3):
+        return False
+    for slot in ("_left_child", "_right_child"):
+        exits = []
+        st = mw._blk(ifs[2].body, {sn}, False, slot, exits, None)
+        if st is not _EXIT:
+            exits.append(st)
+        if not exits or not all(exits):
+            return False
+    # the wrapper `_loc` must pass its (rounded) arguments straight to `_loc_inner` on self
+    loc = model.func(BI, "_Interval._loc")
+    calls = [c for c in astq.calls(loc) if isinstance(c.func, ast.Attribute) and c.func.attr == "_loc_inner"]
+    return len(calls) == 1 and astq.dotted(calls[0].func.value) == loc.params[0]
+
+
+def _after_interior_loc(model, fi, rd, rtext, mw):
+    if rd.attr not in ("_left_child", "_right_child"):
+        return None
+    chain = _stmt_chain(fi, rd)
+    for stmts, idx in reversed(chain):
+        for j in range(idx - 1, -1, -1):
+            p = stmts[j]
+            if not isinstance(p, ast.Expr) or not isinstance(p.value, ast.Call):
+                continue
+            c = p.value
+            if not (isinstance(c.func, ast.Attribute) and c.func.attr == "_loc"
+                    and _receiver_text(c.func.value) == rtext and len(c.args) == 2):
+                continue
+            a, b = c.args
+
+            def is_bound_to(expr, attr):
+                if astq.dotted(expr) == f"{rtext}.{attr}":
+                    return True
+                if isinstance(expr, ast.Name):
+                    binds = astq.assignments_to(fi, expr.id)
+                    return len(binds) >= 1 and all(v is not None and astq.dotted(v) == f"{rtext}.{attr}"
+                                                   for _, v in binds)
+                return False
+            if not is_bound_to(a, "_start"):
+                continue
+            # premise  start < b < end  among the path conditions of the call
+            lo = hi = False
+            for cond, pol, kind in astq.path_conditions(fi, c):
+                if not pol or not isinstance(cond, ast.Compare):
+                    continue
+                items = [cond.left] + list(cond.comparators)
+                for (x, op, y) in zip(items, cond.ops, items[1:]):
+                    if isinstance(op, ast.Lt):
+                        if is_bound_to(x, "_start") and ast.unparse(y) == ast.unparse(b):
+                            lo = True
+                        if ast.unparse(x) == ast.unparse(b) and is_bound_to(y, "_end"):
+                            hi = True
+                    if isinstance(op, ast.Gt):
+                        if is_bound_to(y, "_start") and ast.unparse(x) == ast.unparse(b):
+                            lo = True
+                        if ast.unparse(y) == ast.unparse(b) and is_bound_to(x, "_end"):
+                            hi = True
+            if lo and hi and _loc_lemma_holds(model, mw):
+                return (f"follows `{ast.unparse(c)}` under `{rtext}._start < {ast.unparse(b)} < {rtext}._end` "
+                        f"(lemma L-loc: an interior query starting at the node's own start splits the node)")
     return None
 
 
